@@ -368,8 +368,8 @@ def check(ctx, run):
 
     # a reallocated block keeps its contents: every function a switch stores in the realloc slot, folded, hands the OLD block to the
     # detector's reallocMemory untouched (nothing poisons or releases it first)
-    from .C10 import slot_fold
-    rfs = sorted((g for mn_ in prog.slots().get("realloc_fptr", set()) for g in [prog.functions.get(mn_)] if g is not None and g.file.startswith("src/CppUTest/MemoryLeak")), key=lambda g: g.qn)
+    from .C10 import slot_fold, slot_targets
+    rfs = slot_targets(prog, "realloc_fptr")
     if not rfs:
         raise AnalysisBroken("C05.R3: no tracked function is ever stored in realloc_fptr")
     for g in rfs:
